@@ -20,19 +20,24 @@ type AppOp struct {
 	K string `json:"k"` // obtain inc close child
 	I int    `json:"i"` // identity
 	D int64  `json:"d,omitempty"`
+	A bool   `json:"a,omitempty"` // obtain through the alias spelling (raw tags that sanitize to the same identity)
 }
 
 type Case struct {
-	Cached bool      `json:"cached"`
-	Shards uint      `json:"shards"`
-	NIdent int       `json:"nident"`
-	Apps   [][]AppOp `json:"apps"`
-	Passes []int     `json:"passes"`
-	Sched  []int     `json:"sched"`
+	Cached bool `json:"cached"`
+	Shards uint `json:"shards"`
+	NIdent int  `json:"nident"`
+	// Sanitize: the root has a sanitizer and every identity is a tagged scope that can be requested
+	// through two raw spellings ("v_0" and "v.0") that sanitize to the same tag value
+	Sanitize bool      `json:"sanitize,omitempty"`
+	Apps     [][]AppOp `json:"apps"`
+	Passes   []int     `json:"passes"`
+	Sched    []int     `json:"sched"`
 }
 
 func gen(t *rapid.T) Case {
 	c := Case{Cached: rapid.Bool().Draw(t, "cached"), Shards: uint(rapid.SampledFrom([]int{1, 1, 2, 4}).Draw(t, "shards")), NIdent: rapid.IntRange(1, 3).Draw(t, "nident")}
+	c.Sanitize = rapid.IntRange(0, 3).Draw(t, "sanitize") == 0
 	na := rapid.IntRange(1, 3).Draw(t, "napps")
 	for a := 0; a < na; a++ {
 		n := rapid.IntRange(2, 8).Draw(t, "nops")
@@ -41,6 +46,9 @@ func gen(t *rapid.T) Case {
 			op := AppOp{K: rapid.SampledFrom([]string{"obtain", "obtain", "inc", "inc", "inc", "close", "close", "child"}).Draw(t, "k"), I: rapid.IntRange(0, c.NIdent-1).Draw(t, "i")}
 			if op.K == "inc" || op.K == "child" {
 				op.D = int64(rapid.IntRange(1, 9).Draw(t, "d"))
+			}
+			if op.K == "obtain" && c.Sanitize {
+				op.A = rapid.Bool().Draw(t, "alias")
 			}
 			ops = append(ops, op)
 		}
@@ -52,6 +60,21 @@ func gen(t *rapid.T) Case {
 	}
 	c.Sched = sgen.Choices(t, 200, na+np)
 	return c
+}
+
+func deriveSan(root tally.Scope, i int, alias bool) tally.Scope {
+	if alias {
+		return root.Tagged(map[string]string{"t": fmt.Sprintf("v%d.0", i)})
+	}
+	return root.Tagged(map[string]string{"t": fmt.Sprintf("v%d_0", i)})
+}
+
+func identSan(i int, child bool) string {
+	name := "c"
+	if child {
+		name = "child.c"
+	}
+	return rec.ID(name, map[string]string{"t": fmt.Sprintf("v%d_0", i)})
 }
 
 func derive(root tally.Scope, i int) tally.Scope {
@@ -79,6 +102,9 @@ func ident(i int, child bool) string {
 type handle struct {
 	s      tally.Scope
 	closed atomic.Bool // set by the harness right before Close is called on this scope object
+	// closeReturned is the global sequence number taken right after a Close call on this scope
+	// object returned (0: none has returned yet)
+	closeReturned atomic.Int64
 }
 
 func run(c Case) (pbt.Outcome, error) {
@@ -91,11 +117,32 @@ func run(c Case) (pbt.Outcome, error) {
 	} else {
 		opts.Reporter = &rec.Stats{L: log}
 	}
+	if c.Sanitize {
+		opts.SanitizeOptions = &tally.SanitizeOptions{
+			NameCharacters:       tally.ValidCharacters{Ranges: tally.AlphanumericRange, Characters: tally.UnderscoreDashDotCharacters},
+			KeyCharacters:        tally.ValidCharacters{Ranges: tally.AlphanumericRange, Characters: tally.UnderscoreCharacters},
+			ValueCharacters:      tally.ValidCharacters{Ranges: tally.AlphanumericRange, Characters: tally.UnderscoreCharacters},
+			ReplacementCharacter: '_',
+		}
+	}
 	root, _ := tally.VerifNewRootScope(opts, 0, c.Shards)
+	get := func(i int, alias bool) tally.Scope {
+		if c.Sanitize {
+			return deriveSan(root, i, alias)
+		}
+		return derive(root, i)
+	}
+	id := func(i int, child bool) string {
+		if c.Sanitize {
+			return identSan(i, child)
+		}
+		return ident(i, child)
+	}
 
 	var mu sync.Mutex
 	handles := map[tally.Scope]*handle{} // one record per scope object ever returned
 	slots := make([]*handle, c.NIdent)   // shared "current handle" per identity
+	spelling := make([]bool, c.NIdent)   // raw spelling used by the last obtain (requests are sharded by raw key)
 	lower := map[string]int64{}
 	upper := map[string]int64{}
 	lookup := func(s tally.Scope) *handle {
@@ -117,6 +164,7 @@ func run(c Case) (pbt.Outcome, error) {
 		mu.Unlock()
 	}
 	reacquired := false
+	var seq atomic.Int64
 
 	s := sched.New(c.Sched)
 	log.OnCall = s.Yield
@@ -129,13 +177,20 @@ func run(c Case) (pbt.Outcome, error) {
 			for _, op := range ops {
 				switch op.K {
 				case "obtain":
-					sc := derive(root, op.I)
+					start := seq.Add(1)
+					sc := get(op.I, op.A)
 					h := lookup(sc)
+					if cr := h.closeReturned.Load(); cr != 0 && cr < start {
+						mu.Lock()
+						errs.Addf("identity %d: the request returned a scope object on which Close had already returned before the request started (a scope obtained after a Close must be fully functional)", op.I)
+						mu.Unlock()
+					}
 					mu.Lock()
 					if slots[op.I] != nil && slots[op.I] != h {
 						reacquired = true
 					}
 					slots[op.I] = h
+					spelling[op.I] = op.A
 					mu.Unlock()
 				case "inc":
 					mu.Lock()
@@ -146,7 +201,7 @@ func run(c Case) (pbt.Outcome, error) {
 					}
 					h.s.Counter("c").Inc(op.D)
 					// delivered for sure only if Close had not been called on this object when Inc returned
-					account(ident(op.I, false), op.D, !h.closed.Load())
+					account(id(op.I, false), op.D, !h.closed.Load())
 				case "close":
 					mu.Lock()
 					h := slots[op.I]
@@ -160,6 +215,7 @@ func run(c Case) (pbt.Outcome, error) {
 						errs.Addf("subscope Close returned %v", err)
 						mu.Unlock()
 					}
+					h.closeReturned.CompareAndSwap(0, seq.Add(1))
 				case "child":
 					mu.Lock()
 					h := slots[op.I]
@@ -175,9 +231,9 @@ func run(c Case) (pbt.Outcome, error) {
 					case closedAtStart:
 						// inert: must deliver nothing (neither bound moves)
 					case !closedAtEnd:
-						account(ident(op.I, true), op.D, true)
+						account(id(op.I, true), op.D, true)
 					default:
-						account(ident(op.I, true), op.D, false)
+						account(id(op.I, true), op.D, false)
 					}
 				}
 				s.Yield("harness:after-op")
@@ -206,7 +262,7 @@ func run(c Case) (pbt.Outcome, error) {
 	// a live handle stays registered: a later obtain returns it
 	for i, h := range slots {
 		if h != nil && !h.closed.Load() {
-			if again := derive(root, i); again != h.s {
+			if again := get(i, spelling[i]); again != h.s {
 				errs.Addf("identity %d: the live scope obtained last is no longer registered (a later request returned a different scope)", i)
 				// keep recording on the old handle below to show the loss
 			}
@@ -242,6 +298,9 @@ func run(c Case) (pbt.Outcome, error) {
 	if reacquired {
 		out.Classes = append(out.Classes, "reacquired")
 	}
+	if c.Sanitize {
+		out.Classes = append(out.Classes, "sanitizer-aliases")
+	}
 	if sched.PreemptedAt(res.Trace, "registry.remove:") {
 		out.Classes = append(out.Classes, "preempted-lock-handover")
 	}
@@ -251,7 +310,7 @@ func run(c Case) (pbt.Outcome, error) {
 func TestC07(t *testing.T) {
 	pbt.Main(t, pbt.Prop[Case]{
 		ID: "C07", Name: "sched",
-		Rule: "cooperative-scheduler mode: rapid generates 1..3 identities (SubScope and Tagged), shard count 1/2/4, plain/cached, 1..3 application threads each 2..8 ops from {obtain(identity) into a shared slot, Inc on the slot's scope, Close the slot's scope, derive a child of it and Inc there}, 1..2 modelled ticker threads x 1..3 passes, AND the schedule (<=200 choices incl. the yield points around the registry's lock hand-over, between 'report scope' and the closed-flag handling, and inside the re-acquire path). Then two sequential passes. Oracle per identity: L <= delivered <= U with L = increments that completed before Close was called on their scope object plus all increments on objects never closed, U = all increments; children derived from an already closed scope deliver nothing; the live scope obtained last is still registered; Close returns nil; no panic; deadlock decided exactly by the scheduler. Non-trivial: a re-acquire happened and some registry window (lock hand-over, report/closed check, re-acquire path) was preempted. Distinct: FNV-64 of program+schedule JSON.",
+		Rule: "cooperative-scheduler mode: rapid generates 1..3 identities (SubScope and Tagged; in a quarter of the cases a root with a sanitizer whose identities can each be requested through two raw tag spellings that sanitize identically), shard count 1/2/4, plain/cached, 1..3 application threads each 2..8 ops from {obtain(identity) into a shared slot, Inc on the slot's scope, Close the slot's scope, derive a child of it and Inc there}, 1..2 modelled ticker threads x 1..3 passes, AND the schedule (<=200 choices incl. the yield points around the registry's lock hand-over, between 'report scope' and the closed-flag handling, and inside the re-acquire path). Then two sequential passes. Oracle per identity: L <= delivered <= U with L = increments that completed before Close was called on their scope object plus all increments on objects never closed, U = all increments; children derived from an already closed scope deliver nothing; the live scope obtained last is still registered; a request never returns a scope object whose Close had returned before the request started; Close returns nil; no panic; deadlock decided exactly by the scheduler. Non-trivial: a re-acquire happened and some registry window (lock hand-over, report/closed check, re-acquire path) was preempted. Distinct: FNV-64 of program+schedule JSON.",
 		Gen:  gen, Run: run, Retries: 30,
 	})
 }
